@@ -111,6 +111,8 @@ def stepSess {α} (o : NumOps α) (sh : α → String) (allow : Kind → Bool) (
   | ["powr", c] => opt (parseRat? c) (fun c => if allow .timeProb then compute sh s (fun t => powC o t (o.ofRat c)) else (s, "bad-op")) s
   | ["rpowr", c] => opt (parseRat? c) (fun c => if allow .timeProb then compute sh s (fun t => rpowC o t (o.ofRat c)) else (s, "bad-op")) s
   | ["draws", l] => opt (parseRatList? l) (fun l => mutate sh s (fun t => scaleDraws o t (l.map o.ofRat))) s
+  | ["idraws", l] => opt (parseIntList? l) (fun l => mutate sh s (fun t => postprocess o t (.ints l))) s
+  | ["param", v] => opt (parseVal? o v) (fun v => mutate sh s (fun t => convertParam o t v)) s
   | ["iadd", c] => opt (parseRat? c) (fun c => mutate sh s (fun t => isetV o t (fun x => o.add x (o.ofRat c)))) s
   | ["isub", c] => opt (parseRat? c) (fun c => mutate sh s (fun t => isetV o t (fun x => o.sub x (o.ofRat c)))) s
   | ["imul", c] => opt (parseRat? c) (fun c => mutate sh s (fun t => isetV o t (fun x => o.mul x (o.ofRat c)))) s
